@@ -236,7 +236,7 @@ def build_harness():
 # ---------------------------------------------------------------------------------------------
 def parse_driver_output(txt):
     r = dict(n=0, diff_model=[], diff_spec=[], kf_lines=[], kf={}, nontrivial=0, distinct_nontrivial=0, bad=0,
-             samples=[], summary=False, other=[])
+             samples=[], summary=False, other=[], dist={})
     for line in txt.split("\n"):
         if not line:
             continue
@@ -250,6 +250,14 @@ def parse_driver_output(txt):
                 if ":" in part:
                     k, c = part.rsplit(":", 1)
                     r["kf"][k] = r["kf"].get(k, 0) + int(c)
+        elif line.startswith("DIST "):
+            for part in line[5:].split(";"):
+                if "=" in part:
+                    k, c = part.rsplit("=", 1)
+                    try:
+                        r["dist"][k] = r["dist"].get(k, 0) + int(c)
+                    except ValueError:
+                        pass
         elif line.startswith("DIFF-MODEL "):
             r["diff_model"].append(line[len("DIFF-MODEL "):])
         elif line.startswith("DIFF-SPEC "):
@@ -269,12 +277,14 @@ def merge(a, b):
         a[k] += b[k]
     for k, c in b["kf"].items():
         a["kf"][k] = a["kf"].get(k, 0) + c
+    for k, c in b.get("dist", {}).items():
+        a.setdefault("dist", {})[k] = a.get("dist", {}).get(k, 0) + c
     a["summary"] = a["summary"] and b["summary"]
     return a
 
 def empty_result():
     return dict(n=0, diff_model=[], diff_spec=[], kf_lines=[], kf={}, nontrivial=0, distinct_nontrivial=0, bad=0,
-                samples=[], summary=True, other=[])
+                samples=[], summary=True, other=[], dist={})
 
 def tcorr_run(level, group, tier, seed, nshards=NSHARDS, timeout=7200, extra_env=None):
     """run one (level, group) sharded; returns merged result, and a 'broken' message if the machinery failed"""
@@ -511,6 +521,9 @@ def run_check(pid, tier, seed, replay):
             "axioms_used": sorted({a for v in axioms.values() for a in v if "bv_decide" not in a}),
             "bv_decide_axioms": len(bv_axioms),
             "gen_tables": gen_summary,
+            "distribution": {"categories": len(total.get("dist", {})),
+                             "largest": dict(sorted(total.get("dist", {}).items(), key=lambda kv: -kv[1])[:40]),
+                             "smallest": dict(sorted(total.get("dist", {}).items(), key=lambda kv: kv[1])[:15])},
             "correspondence": {
                 "runs": [f"{r[0]}/{r[1]}" for r in cfg["runs"]],
                 "disagreements_model": len(total["diff_model"]),
